@@ -22,6 +22,10 @@ CHECKS = {
    technique="explicit-state BFS over histories; every transaction of the alphabet is executed from every reached state and ended by TransactionCancel and by real timer expiry (1 ms timeout), intended store and device compared with the pre-transaction snapshot",
    text="From every state reachable within the depth bound every transaction of the alphabet (create, change, shrink, re-prioritise, delete, two intents; ruling and shadowed) is applied and then cancelled, and separately left to expire; afterwards the canonical intended store must equal the snapshot taken before the transaction and every path the transaction sent to the device must be back at its previous value or absence.",
    note="Expiry uses the real timer goroutine with a 1 ms timeout and a 30 s watchdog (one active thread; interleavings of confirm/cancel/expiry are C16). Unmanaged leaves removed by an aggregated list-entry delete are not required to come back."),
+ "C08": dict(level="model_checking", engine=E1, design="DESIGN.md §3 C08",
+   technique="explicit-state BFS over histories with a choice-centred alphabet (top-level, nested and in-list choices, non-members with prefix-related names); device projected on choice members after every transition and compared with the winning case computed from the reference model",
+   text="Exhaustive exploration of histories in which 3 owners with distinct priorities populate different cases of the same choice, are added, changed, re-prioritised and removed, one or two per transaction, with non-member siblings abx / eth-speedx in intents and in the running config. After every applied transition each choice instance on the device may hold nodes of one case only, namely the case of the lowest-priority-number contribution among live intents, whose members must carry the ruling values.",
+   note="Bounded by depth/alphabet. Several structural defects are recorded as known findings (choices in lists, nested choices, multi-intent transactions, case activated by removal); the part that is clean and guarded is single-intent case switching on a top-level choice and the non-influence of non-members."),
  "C09": dict(level="model_checking", engine=E1, design="DESIGN.md §3 C09",
    technique="explicit-state BFS over histories; from every reached state every non-empty subset of the live intents is re-submitted verbatim and the device payload in all encodings plus both stores are compared before/after",
    text="From every state reachable within the depth bound, every non-empty subset of the live intents (ruling, shadowed, mixed) is re-submitted with identical name, priority and content; the recording device renders the tree in all four encodings (8 XML option combinations) and all must be empty, the response must carry no updates/deletes and intended store, running store and device must be identical before and after.",
